@@ -4,7 +4,12 @@ RobinHood.tla (slot array, probing, victim swapping, rehash, backward shift, ite
 checked by TLC to refine it for all hash functions over small code sets; behaviours of RobinHood (with their hash
 assignments) and seeded random scripts with adversarial hash assignments are replayed on the real aws_hash_table
 through a table-driven hash callback; the recorded traces are validated by HashMapTrace.tla against the abstract
-map only. The library's own hash/equality pairs are covered by HashEq events and by table scripts on real keys."""
+map only. The library's own hash/equality pairs are covered by HashEq events and by table scripts on real keys.
+Extension: aws_hash_table_eq (Eq action; comparators identity / value class / everything-equal; tables with different
+hash functions, sizes, insertion orders), tables that own aws_string keys and values through
+aws_hash_callback_string_destroy (destruction observed at the allocator), aws_hash_combine, the documented agreement
+of the C-string / aws_string / cursor hashes, aws_hash_table_is_valid / aws_hash_iter_is_valid after every call, and
+allocator traffic of put / create (no growth while the table holds fewer entries than it has held before)."""
 import random
 
 from vlib import build, pipeline, tlc
@@ -13,6 +18,8 @@ LEVEL = "model_checking"
 SPEC_DIR = "HashTable"
 U64 = (1 << 64) - 1
 REAL_MODES = ["cstr", "string", "cursor", "cursor_ic", "ptr", "u64"]
+OWN = "string_own"
+EQ_KINDS = ["id", "m3", "all"]
 
 
 def prepare(ctx):
@@ -36,6 +43,8 @@ def from_tlc(s, rng):
             else:
                 lines.append("MOVE %d %d" % (oth, cur))
             cur = oth
+        if n != "Init" and rng.random() < 0.04:   # non-mutating, also legal while an iteration is in progress
+            lines.append("EQ %d %d %s" % (cur, cur, rng.choice(EQ_KINDS)))
         if n == "Init":
             lines.append("INIT %d %d %d %d" % (cur, o["isz"], int(o["k"]), int(o["v"])))
         elif n == "Put":
@@ -102,10 +111,16 @@ def random_exec(rng, nops, mode="tab"):
         lines = ["RESET tab %d %s" % (ncls, " ".join(str(c) for c in codes))]
     else:
         lines = ["RESET %s %d" % (mode, ncls)]
-    nullkey = rng.random() < 0.3
+    # string_own: aws_hash_callback_string_destroy requires a valid aws_string, so no NULL key and no value left NULL
+    nullkey = rng.random() < 0.3 and mode != OWN
     classes = list(range(1, ncls + 1)) + ([0] if nullkey else [])
     ptrs = [1] if mode == "ptr" else [1, 2, 3]
     live = {1: False, 2: False}     # exact: init / clean_up / swap / move are deterministic
+    # string_own: the table frees the key objects it is given, so a key object must never be inside two tables at once.
+    # The three objects of a class are split into two pools; the two tables alive at one time use different pools
+    # (pools travel with swap / move). Values are fresh ids throughout, hence never shared either.
+    own = mode == OWN
+    pool = {1: None, 2: None}
     nv = [0]
     fill = rng.choice([0.35, 0.5, 0.65])   # share of inserting calls: decides how full the table runs
 
@@ -113,14 +128,25 @@ def random_exec(rng, nops, mode="tab"):
         nv[0] += 1
         return nv[0]
 
-    def key():
+    def key(t=None):
         c = rng.choice(classes)
-        return c, (0 if c == 0 else rng.choice(ptrs))
+        return c, (0 if c == 0 else rng.choice(pool[t] if (own and t) else ptrs))
 
     def init(t):
         d = rng.choice([(1, 1), (1, 1), (0, 0), (1, 0), (0, 1)])
-        lines.append("INIT %d %d %d %d" % (t, isz if t == 1 else rng.choice([0, 2, 4, 8]), d[0], d[1]))
+        if own:
+            d = rng.choice([(1, 1), (1, 1), (1, 1), (1, 0), (0, 1), (0, 0)])
+            o = 3 - t
+            pool[t] = ([1, 2] if pool[o] == [3] else [3]) if live[o] else rng.choice([[1, 2], [3]])
+        # tab mode: now and then a table with the second hash function (hash functions are per table)
+        alt = 1 if (mode == "tab" and rng.random() < 0.25) else 0
+        lines.append("INIT %d %d %d %d %d" % (t, isz if t == 1 else rng.choice([0, 2, 4, 8]), d[0], d[1], alt))
         live[t] = True
+
+    def eq_line():
+        a, b = rng.choice([(1, 2), (2, 1), (1, 2), (2, 1), (1, 1), (2, 2)])
+        if live[a] and live[b]:
+            lines.append("EQ %d %d %s" % (a, b, rng.choice(EQ_KINDS)))
 
     init(1)
     while len(lines) < nops:
@@ -131,11 +157,11 @@ def random_exec(rng, nops, mode="tab"):
         t = rng.choice(lv)
         r = rng.random()
         if r < fill:
-            c, p = key()
+            c, p = key(t)
             if rng.random() < 0.85:
                 lines.append("PUT %d %d %d %d %d" % (t, c, p, val(), rng.choice([1, 1, 1, 0])))
             else:
-                lines.append("CREATE %d %d %d %d %d" % (t, c, p, val() if rng.random() < 0.6 else -1, rng.choice([1, 1, 0])))
+                lines.append("CREATE %d %d %d %d %d" % (t, c, p, val() if (own or rng.random() < 0.6) else -1, rng.choice([1, 1, 0])))
         elif r < fill + 0.04:
             c, p = key()
             lines.append("FIND %d %d %d" % (t, c, 0 if c == 0 else rng.choice([0] + ptrs)))
@@ -152,6 +178,8 @@ def random_exec(rng, nops, mode="tab"):
             for _ in range(rng.choice([1, 2, 4, 6, 9, 12])):
                 if rng.random() < pdel:
                     lines.append("ITDEL %d" % rng.choice([0, 1]))
+                if rng.random() < 0.05:
+                    eq_line()       # non-mutating calls are allowed while an iteration is in progress
                 lines.append("ITNEXT")
         elif r < fill + 0.42:
             k = rng.choice([0, 1, 2, 3, 5, 9])
@@ -162,11 +190,13 @@ def random_exec(rng, nops, mode="tab"):
         elif r < fill + 0.47:
             lines.append("SWAP 1 2")
             live[1], live[2] = live[2], live[1]
+            pool[1], pool[2] = pool[2], pool[1]
         elif r < fill + 0.50:
             o = 3 - t
             if not live[o]:
                 lines.append("MOVE %d %d" % (o, t))
                 live[o], live[t] = True, False
+                pool[o], pool[t] = pool[t], None
             else:
                 lines.append("CLEANUP %d" % o)
                 live[o] = False
@@ -177,6 +207,8 @@ def random_exec(rng, nops, mode="tab"):
         elif r < fill + 0.53:
             lines.append("CLEANUP %d" % t)
             live[t] = False
+        elif r < fill + 0.58:
+            eq_line()
     lines += ["CLEANUP 1", "CLEANUP 2"]
     if rng.random() < 0.1:
         lines.append("CLEANUP %d" % rng.choice((1, 2)))   # idempotent
@@ -217,6 +249,170 @@ def iter_wrap_family(rng, per_config):
     return out
 
 
+def eq_family(rng, n, mode="tab"):
+    """aws_hash_table_eq: two tables built to stand in a chosen relation - the same entries (other key objects, other
+    insertion order, other initial size, other hash function, other destructors), one value different (really, or only
+    as an object: equal under the coarser comparators), one key more / fewer / exchanged, NULL values on one or both
+    sides, one or both empty - compared both ways round under every comparator, then again after an edit that makes or
+    breaks the equality, and each table with itself."""
+    out = []
+    own = mode == OWN
+    for _ in range(n):
+        ncls = rng.choice([1, 2, 3, 4, 6, 8])
+        if mode == "tab":
+            size = rng.choice([2, 4, 8])
+            codes = adversarial_codes(rng, ncls, size)
+            lines = ["RESET tab %d %s" % (ncls, " ".join(str(c) for c in codes))]
+        else:
+            lines = ["RESET %s %d" % (mode, ncls)]
+        pa, pb = ([1, 2], [3]) if (own or rng.random() < 0.5) else ([1, 2, 3], [1, 2, 3])
+        if mode == "ptr":
+            pa = pb = [1]
+        classes = list(range(1, ncls + 1)) + ([0] if (rng.random() < 0.3 and not own) else [])
+        keys = [c for c in classes if rng.random() < rng.choice([0.5, 0.8, 1.0])]
+        rel = rng.choice(["same", "same", "value", "value3", "null_a", "null_both", "extra", "missing", "exchanged", "empty_b",
+                          "both_empty"])
+        if own and rel.startswith("null"):      # the string destructor must not be handed NULL
+            rel = "value3"
+        if rel == "both_empty":
+            keys = []
+        d = rng.choice([(1, 1), (0, 0), (1, 0)])
+        lines.append("INIT 1 %d %d %d 0" % (rng.choice([0, 2, 4, 8, 16]), d[0], d[1]))
+        d = rng.choice([(1, 1), (0, 0), (0, 1)])
+        lines.append("INIT 2 %d %d %d %d" % (rng.choice([0, 2, 4, 8, 16]), d[0], d[1], rng.choice([0, 1])))
+        nv = [0]
+
+        def fresh(like=None, same_class=True):
+            # value ids are never reused (a table may own them); ids congruent mod 3 are "equal" for comparator m3
+            nv[0] += 1
+            if like is not None:
+                while (nv[0] % 3 == like % 3) != same_class:
+                    nv[0] += 1
+            return nv[0]
+
+        def put(t, c, v):
+            lines.append("PUT %d %d %d %d 1" % (t, c, 0 if c == 0 else rng.choice(pa if t == 1 else pb), v))
+
+        va = {}
+        order = list(keys)
+        rng.shuffle(order)
+        for c in order:
+            va[c] = fresh()
+            put(1, c, va[c])
+        kb = list(keys)
+        if rel == "missing" and kb:
+            kb.remove(rng.choice(kb))
+        if rel == "empty_b":
+            kb = []
+        absent = [c for c in classes if c not in keys]
+        if rel == "extra" and absent:
+            kb.append(rng.choice(absent))
+        if rel == "exchanged" and absent and kb:
+            kb.remove(rng.choice(kb))
+            kb.append(rng.choice(absent))
+        rng.shuffle(kb)
+        odd = rng.choice(kb) if kb else None
+        identical = rng.random() < 0.5
+        for c in kb:
+            if c in va and own:
+                v = fresh(va[c], not (rel == "value3" and c == odd))     # another object; equal as a string or not
+            elif c in va and rel in ("value", "value3") and c == odd:
+                v = fresh(va[c], rel == "value")                        # "value": differs as an object only
+            elif c in va and not own:
+                # the very same value (ids are carried in the pointer), or another one of its class: the comparator decides
+                v = va[c] if identical else fresh(va[c], True)
+            else:
+                v = fresh()
+            if rel in ("null_a", "null_both") and c == odd:
+                lines.append("CREATE 2 %d %d -1 1" % (c, 0 if c == 0 else rng.choice(pb)))   # value NULL
+                if rel == "null_both" and c in va:
+                    lines.append("REMOVE 1 %d 0 0 1" % c)
+                    lines.append("CREATE 1 %d %d -1 1" % (c, 0 if c == 0 else rng.choice(pa)))
+            else:
+                put(2, c, v)
+
+        def compare():
+            for k in rng.sample(EQ_KINDS, rng.choice([2, 3, 3])):
+                a, b = rng.choice([(1, 2), (2, 1)])
+                lines.append("EQ %d %d %s" % (a, b, k))
+                if rng.random() < 0.3:
+                    lines.append("EQ %d %d %s" % (b, a, k))
+        compare()
+        lines.append("EQ %d %d %s" % (1, 1, rng.choice(EQ_KINDS)))
+        # an edit, then again
+        for _ in range(rng.choice([1, 1, 2])):
+            t = rng.choice([1, 2])
+            c = rng.choice(classes)
+            how = rng.choice(["remove", "put", "put_like", "foreach_del", "swap", "iter_del"])
+            if how == "remove":
+                lines.append("REMOVE %d %d 0 %d 1" % (t, c, rng.choice([0, 1])))
+            elif how == "put":
+                put(t, c, fresh())
+            elif how == "put_like" and c in va:
+                put(t, c, fresh(va[c], True))
+            elif how == "foreach_del":
+                lines.append("FOREACH %d %s" % (t, " ".join(str(rng.choice([1, 3])) for _ in range(rng.choice([1, 2, 9])))))
+            elif how == "swap":
+                lines.append("SWAP 1 2")
+                pa, pb = pb, pa
+            elif how == "iter_del":
+                lines += ["ITBEGIN %d" % t, "ITDEL %d" % rng.choice([0, 1]), "ITNEXT", "EQ 1 2 %s" % rng.choice(EQ_KINDS)]
+            compare()
+        lines.append("EQ %d %d %s" % (2, 2, rng.choice(EQ_KINDS)))
+        lines += ["CLEANUP 1", "EQ 1 2 id", "CLEANUP 2"]
+        out.append(lines)
+    return out
+
+
+def room_family(rng, n):
+    """Storage is kept: a table that has held k entries takes k entries again without asking the allocator for memory -
+    after clear, after removals of every kind, after travelling through swap / move - and overwriting never grows it."""
+    out = []
+    for _ in range(n):
+        ncls = 8
+        isz = rng.choice([0, 2, 3, 4, 5, 8, 9, 16])
+        codes = adversarial_codes(rng, ncls, isz)
+        lines = ["RESET tab %d %s" % (ncls, " ".join(str(c) for c in codes)), "INIT 1 %d 1 1 %d" % (isz, rng.choice([0, 0, 1]))]
+        classes = list(range(0, ncls + 1))
+        rng.shuffle(classes)
+        k = rng.choice([1, 2, 3, 4, 5, 7, 8, 9])
+        v = 0
+        t = 1
+        for rnd in range(rng.choice([2, 3])):
+            for c in classes[:k]:
+                v += 1
+                lines.append("%s %d %d %d %d 1" % ("PUT", t, c, 0 if c == 0 else rng.choice([1, 2, 3]), v))
+                if rng.random() < 0.15:       # overwrite at once
+                    v += 1
+                    lines.append("PUT %d %d %d %d 1" % (t, c, 0 if c == 0 else rng.choice([1, 2, 3]), v))
+            how = rng.choice(["clear", "remove", "iter", "foreach", "remelem", "some"])
+            if how == "clear":
+                lines.append("CLEAR %d" % t)
+            elif how == "remove":
+                lines += ["REMOVE %d %d 0 %d 1" % (t, c, rng.choice([0, 1])) for c in classes[:k]]
+            elif how == "remelem":
+                lines += ["REMELEM %d %d 0" % (t, c) for c in classes[:k]]
+            elif how == "iter":
+                lines.append("ITBEGIN %d" % t)
+                for _ in range(k):
+                    lines += ["ITDEL %d" % rng.choice([0, 1]), "ITNEXT"]
+            elif how == "foreach":
+                lines.append("FOREACH %d %s" % (t, " ".join(["3"] * k)))
+            else:
+                lines += ["REMOVE %d %d 0 0 1" % (t, c) for c in classes[:k] if rng.random() < 0.5]
+            if rng.random() < 0.4:
+                if rng.random() < 0.5:
+                    lines.append("SWAP 1 2")
+                else:
+                    lines.append("MOVE %d %d" % (3 - t, t))
+                t = 3 - t
+            rng.shuffle(classes)
+            k = rng.choice([k, k, max(1, k - 1), min(9, k + 1)])
+        lines += ["CLEANUP 1", "CLEANUP 2"]
+        out.append(lines)
+    return out
+
+
 # ------------------------------------------------------------------ the library's own hash / equality pairs
 def _hex(b):
     return b.hex() if b else "-"
@@ -235,8 +431,31 @@ def _flipcase(b, rng):
 def hasheq_exec(rng, n):
     lines = ["RESET tab 1 0"]
     alpha = b"abcXYZ019-_ \xc3\xa9\xff\x80@[`{"
+    edge = [0, 1, 2, 0xFF, 0xFFFFFFFF, 0x100000000, (1 << 63), U64, U64 - 1, 0x0123456789ABCDEF]
     while len(lines) < n:
-        fam = rng.choice(REAL_MODES)
+        fam = rng.choice(REAL_MODES + ["combine", "xhash"])
+        if fam == "combine":
+            # aws_hash_combine: a function of (item1, item2) - no more is documented
+            a1 = rng.choice(edge + [rng.getrandbits(64)])
+            b1 = rng.choice(edge + [rng.getrandbits(64)])
+            rel = rng.choice(["copy", "copy", "diff"])
+            a2, b2 = a1, b1
+            if rel == "diff":
+                how = rng.choice(["a", "b", "swap", "both"])
+                if how in ("a", "both"):
+                    a2 = a1 ^ (1 << rng.randrange(64))
+                if how in ("b", "both"):
+                    b2 = b1 ^ (1 << rng.randrange(64))
+                if how == "swap":
+                    a2, b2 = b1, a1
+                    if (a2, b2) == (a1, b1):
+                        rel = "copy"
+            lines.append("COMBINE %d %d %d %d %s" % (a1, b1, a2, b2, rel))
+            continue
+        if fam == "xhash":
+            ln = rng.choice([0, 1, 2, 3, 4, 7, 8, 11, 12, 13, 16, 23, 24, 25, 31, 43])
+            lines.append("XHASH %s" % _hex(bytes(rng.choice(alpha) for _ in range(ln))))
+            continue
         if fam == "ptr":
             a = bytes([rng.randrange(0, 200)])
             rel = rng.choice(["copy", "diff"])
@@ -288,7 +507,8 @@ def nontrivial(ex):
     ins = sum(1 for ln in ex if ln.startswith("PUT") or ln.startswith("CREATE"))
     rem = any(ln.startswith(("REMOVE", "REMELEM", "ITDEL")) or (ln.startswith("FOREACH") and any(int(f) & 2 for f in ln.split()[2:]))
               for ln in ex)
-    return (ins >= 3 and rem) or any(ln.startswith("HASHEQ") for ln in ex)
+    eq = sum(1 for ln in ex if ln.startswith("EQ "))
+    return (ins >= 3 and rem) or (ins >= 2 and eq >= 2) or any(ln.startswith("HASHEQ") for ln in ex)
 
 
 def run(ctx):
@@ -296,9 +516,10 @@ def run(ctx):
     exe = prepare(ctx)
     ctx.rule = ("execution = one hash assignment (64-bit code per key class, or one of the library's own hash/eq pairs) + "
                 "initial size + destructor configuration + a sequence of init/put/create/find/remove/remove_element/"
-                "iterator begin-next-delete/foreach(flag script)/clear/swap/move/clean_up calls on two table structs "
-                "(or a batch of HashEq key pairs); distinct = distinct script text; non-trivial = at least three inserting "
-                "calls and one removal of any kind (or a HashEq batch)")
+                "iterator begin-next-delete/foreach(flag script)/clear/swap/move/eq(comparator)/clean_up calls on two table "
+                "structs (or a batch of HashEq key pairs, aws_hash_combine pairs and cross-type hash comparisons); distinct = "
+                "distinct script text; non-trivial = at least three inserting calls and one removal of any kind, or two "
+                "inserting calls and two table comparisons (or a HashEq batch)")
     ctx.assumptions += [
         "the hash callback is a function of the key class (consistent with equality), as the header requires",
         "allocation cannot fail (aws_mem_acquire aborts on OOM); initial sizes near SIZE_MAX are not exercised",
@@ -306,11 +527,19 @@ def run(ctx):
         "RobinHood model constants: <= 4-5 key classes, arrays of 2..16 slots, hash codes from small sets; refinement "
         "checked on the complete reachable state space of each configuration (quick) / larger ones (thorough)",
         "foreach DELETE without CONTINUE: the header is ambiguous whether iteration goes on; both are accepted",
+        "aws_hash_table_eq: the value comparator is an equivalence in which NULL equals only NULL (whether the library "
+        "consults it for NULL or identical pointers is left open); both tables use the same key equality",
+        "tables owning aws_strings (aws_hash_callback_string_destroy): the driver never hands one key or value object to "
+        "two tables at once, nor a value object twice; objects a table gives back undestroyed are freed by the adapter",
+        "allocator traffic: put/create must not allocate when they add no entry or the table has held more entries "
+        "before (storage is kept until clean_up); the header's promise for the size given to aws_hash_table_init is "
+        "NOT part of the verdict (Trace_initsize.cfg turns it on: the library breaks it for sizes at or just below a power of two)",
+        "aws_hash_combine: only that it is a function of its two arguments (nothing else is documented)",
     ]
     # 1. design level -------------------------------------------------------------------------------------
     ctx.mc(SPEC_DIR, "HashMapMC", "MC_abs_thorough.cfg" if thorough else "MC_abs.cfg", timeout=3000, xmx="16g",
            required_actions=["HashMapMC!MCPut", "HashMapMC!MCRemove", "HashMapMC!MCSwap", "HashMapMC!MCMove",
-                             "HashMapMC!MCIterDelete", "HashMapMC!MCForEach", "HashMapMC!MCCleanUp"])
+                             "HashMapMC!MCIterDelete", "HashMapMC!MCForEach", "HashMapMC!MCCleanUp", "HashMapMC!MCEq"])
     # vacuity guard: every named action of the implementation-shaped model (including the split-off internal
     # branches: growth, backward shift across the end of the array, iterator limit--, step back from slot 0) is
     # taken in a small complete configuration run with -coverage; the large configurations run without it
@@ -350,6 +579,19 @@ def run(ctx):
     fam = iter_wrap_family(rng, 24 if not thorough else 256)
     execs += fam
     ctx.extra["iterator_wrap_family_scripts"] = len(fam)
+    # 5. extension: tables that own aws_strings, table comparison, kept storage -----------------------------------
+    nown = 160 if not thorough else 4000
+    for _ in range(nown):
+        execs.append(random_exec(rng, rng.randint(12, 70), mode=OWN))
+    ctx.extra["string_owning_table_scripts"] = nown
+    eqf = eq_family(rng, 150 if not thorough else 4000)
+    for mode in REAL_MODES + [OWN, OWN]:
+        eqf += eq_family(rng, 10 if not thorough else 200, mode=mode)
+    execs += eqf
+    ctx.extra["table_eq_family_scripts"] = len(eqf)
+    rf = room_family(rng, 60 if not thorough else 1500)
+    execs += rf
+    ctx.extra["kept_storage_family_scripts"] = len(rf)
     ctx.extra["real_hash_table_scripts"] = nreal * len(REAL_MODES)
     ctx.extra["hasheq_pairs"] = nheq * 59
     calls = {}
